@@ -231,6 +231,9 @@ class C16(core.PropBase):
             for _ in range(rng.randint(1, 3)):
                 s = mutate(rng, s)
             yield {"s": s}
+        # two parties at once (deterministic pre-emption, see core.run_preempted)
+        for _ in range(600 if thorough else 60):
+            yield {"s": rand_mix(rng), "with": rng.choice([rand_mix(rng), rand_long_ref(rng), "{{ a.b }} x {{c}}", mutate(rng, rand_mix(rng))])}
 
     def rule(self, tier):
         n = self.sweep_len(tier)
@@ -265,6 +268,15 @@ class C16(core.PropBase):
             signal.signal(signal.SIGALRM, old)
 
     def _impl(self, case):
+        if "with" in case:
+            # another party builds and resolves ITS string (nothing shared by the users) at every function entry and line of
+            # this one's: each gets what it gets alone
+            other = {"s": case["with"]}
+            want_b = self._impl(other)
+            ra, odd, _ = core.run_preempted(lambda: self._impl({"s": case["s"]}), lambda: self._impl(other), want_b, max_points=150, lines=True)
+            if odd is not None:
+                return ["raise", "other:the-other-party-got-a-different-answer"]
+            return ra
         s = case["s"]
         try:
             f = FormatString(s)
